@@ -587,3 +587,20 @@ def eventmap_typestate(rep, idx, rule):
                        isinstance(s.value, ast.Name) and s.value.id in setter.params for s in ast.walk(setter.node))
         return False
     must_call(rep, rule, idx, setter, is_freeze, "Source.event_map setter freezes the map it is given")
+    # ... and whoever publishes an event map on a source goes through that setter (or freezes the map itself): a map stored in the
+    # private field directly stays open, add() keeps handing out numbers for which the monitor has no bit
+    for f in idx.all_functions():
+        if f is setter or (f.cls is not None and f.cls.name == "Source" and f.name in ("__init__",)):
+            continue
+        for st in ast.walk(f.node):
+            if isinstance(st, ast.Assign) and len(st.targets) == 1 and isinstance(st.targets[0], ast.Attribute) and st.targets[0].attr == "_event_map" and \
+                    not (isinstance(st.value, ast.Constant) and st.value.value is None):
+                recv = st.targets[0].value
+                own_field = isinstance(recv, ast.Name) and recv.id == "self" and f.cls is not None and f.cls.name == "Source"
+                froze = any(isinstance(c_, ast.Call) and isinstance(c_.func, ast.Attribute) and c_.func.attr == "freeze" and
+                            ast.unparse(c_.func.value) in (ast.unparse(st.value), ast.unparse(st.targets[0])) for c_ in ast.walk(f.node))
+                if not own_field and not froze:
+                    rep.bad(rule, f.site, "an event map is published through Source.event_map's setter, which freezes it",
+                            f"`{ast.unparse(st)[:70]}` stores the map in the private field directly: the setter's freeze() is bypassed, the map "
+                            "stays open, and add() hands out event numbers after the monitor has sized its enable / pending / clear vectors",
+                            line=st.lineno)
